@@ -41,6 +41,10 @@ func runC13(p *eng.Prog, r *eng.Report, tier string) {
 		return strings.HasPrefix(f.Short, "stanza.") || strings.HasPrefix(f.Short, "stream.")
 	})
 	c.r.Floor("C13.14", "children decoded into namespaced targets", nNsD, 2)
+	nLD := lossyDecodeStores(c, "C13.17", func(f *eng.Fn) bool {
+		return strings.HasPrefix(f.Short, "stanza.") || strings.HasPrefix(f.Short, "stream.")
+	})
+	c.r.Floor("C13.17", "stores of the stanza and stream decoders", nLD, 5)
 	rawTokensResolveXMLPrefix(c, "C13.15")
 	nSel := childSelectedByNamespace(c, "C13.16", func(f *eng.Fn) bool {
 		return strings.HasPrefix(f.Short, "stanza.") || strings.HasPrefix(f.Short, "stream.")
